@@ -70,6 +70,13 @@ def run(ck: Checker, prog: Program, tier: str):
         ck.guard(c01._r7, ck, prog)
     for q in ROW_BODIES[:2]:
         ck.guard(_group_axis, ck, prog, q)
+    # "sampled at exactly the requested centre frequencies", whatever their order: every smoothing column is computed from the
+    # whole spectrum and from its own centre frequency alone (loop rules of C02)
+    from . import c02
+    with ck.borrow(c02, P + "R6+"):
+        for k in c02.LOOP_KERNELS:
+            ck.guard(c02._kernel, ck, prog, k)
+        ck.guard(c02._sg, ck, prog)
 
 
 def _is_aug(st, name, amount: Optional[str] = "1") -> bool:
